@@ -550,7 +550,7 @@ func c15SkipDelta(c *Ctx, fn *ssa.Function) (delta int64, ok bool, why string) {
 	if st, isS := sg.Underlying().(*types.Struct); isS {
 		for i := 0; i < st.NumFields(); i++ {
 			if isT(st.Field(i).Type(), lg) {
-				baseField = st.Field(i).Name()
+				baseField = FN(st.Field(i))
 			}
 		}
 	}
